@@ -274,6 +274,26 @@ class World:
             def setk():
                 sd.config[op["name"]] = op["value"]
             return setk
+        if kind == "scc_subdiagrams":
+            def sccs():
+                res = []
+                for sub in sd.source_scc_subdiagrams(nid if nid is not None else 0):
+                    res.append([sorted(sub.network.variable_names()), len(sub)])
+                return sorted(res)
+            return sccs
+        if kind == "edge_motifs":
+            def motifs():
+                n0 = nid if nid is not None else 0
+                res = []
+                for s_ in sorted(sd.dag.successors(n0)):
+                    res.append([
+                        canon_space(sd.node_data(s_)["space"]),
+                        canon_space(sd.edge_stable_motif(n0, s_)),
+                        canon_space(sd.edge_stable_motif(n0, s_, reduced=True)),
+                        sorted(canon_space(m) for m in sd.edge_all_stable_motifs(n0, s_, reduced=True)),
+                    ])
+                return res
+            return motifs
         if kind == "noop":
             return lambda: None
         raise ValueError(f"unknown op {kind}")
